@@ -169,6 +169,7 @@ def run_converter(repo, den: Denotations, hmod, hname, tname, operands):
     c._outputs = ['user']
     c._blocks['has_g'] = FakeBlock('has_g', list(dict.fromkeys(operands)), ['g'], ['g'])
     c._blocks['other'] = FakeBlock('other', ['g'], ['user'], ['user'])
+    c._blocks['also_g'] = FakeBlock('also_g', list(dict.fromkeys(operands)), ['g', 'user'], ['user'])
     c.log.clear()
     before = set(c._gates)
     f = RepoFunc(it, hmod, hmod.func(hname))
